@@ -83,6 +83,7 @@ def cases(np, pd):
     case('at new row', lambda: pd.DataFrame({'a': [1.0]}).at[0, 'a'])
     case('reset_index', lambda: df.reset_index(drop=True).index.tolist())
     case('concat index', lambda: pd.concat([pd.DataFrame({'a': [1]}), pd.DataFrame({'a': [2]})]).index.tolist())
+    case('flatnonzero', lambda: np.flatnonzero(np.array([False, True, True])))
     case('cumsum', lambda: np.cumsum(np.array([1.0, 2.0, 4.0])))
     case('argmax ties', lambda: int(np.argmax(np.array([1.0, 3.0, 3.0]))))
     case('nanmean', lambda: np.nanmean(np.array([1.0, NAN, 3.0])))
